@@ -172,6 +172,16 @@ func (s *WriterOffline) Close() error {
 		return fmt.Errorf("error while merging: %w", err)
 	}
 
+	if len(s.segIDs) == 0 {
+		// nothing was indexed: record an empty index (a snapshot without
+		// segments) instead of indexing into the empty list of segment ids
+		err = s.directory.Persist(ItemKindSnapshot, 0, &Snapshot{}, nil)
+		if err != nil {
+			return fmt.Errorf("error recording snapshot: %w", err)
+		}
+		return nil
+	}
+
 	// open the merged segment
 	data, closer, err := s.directory.Load(ItemKindSegment, s.segIDs[0])
 	if err != nil {
